@@ -128,12 +128,17 @@ impl Prop for BitsProp {
     }
     fn builds(&self, _tier: Tier) -> Vec<&'static str> {
         // the crate feature `prefetch` must not matter for any answer: a smaller run without it
-        vec!["fast", "checked", "noprefetch"]
+        // `asan`: generated cases under AddressSanitizer
+        vec!["fast", "checked", "noprefetch", "asan"]
     }
     fn cases(&self, tier: Tier, build: &str) -> u32 {
         match (self.id, tier, build) {
             ("C06", Tier::Quick, "fast") => 40_000,
             ("C06", Tier::Quick, "noprefetch") => 6_000,
+            ("C06", Tier::Quick, "asan") => 3_000,
+            ("C06", Tier::Thorough, "asan") => 15_000,
+            (_, Tier::Quick, "asan") => 800,
+            (_, Tier::Thorough, "asan") => 4_000,
             ("C06", Tier::Quick, _) => 15_000,
             ("C06", Tier::Thorough, "fast") => 160_000,
             ("C06", Tier::Thorough, "noprefetch") => 20_000,
